@@ -255,6 +255,9 @@ impl Rewriter {
             Fm::And(v) => Fm::And(v.iter().map(|x| self.canon_fm(x)).collect()),
             Fm::Or(v) => Fm::Or(v.iter().map(|x| self.canon_fm(x)).collect()),
             Fm::Not(x) => Fm::Not(Box::new(self.canon_fm(x))),
+            Fm::SumIf(v) => Fm::SumIf(
+                v.iter().map(|(eqs, m)| (eqs.iter().map(|(a, b)| (self.canon(*a), self.canon(*b))).collect(), *m)).collect(),
+            ),
         }
     }
 }
